@@ -11,9 +11,11 @@ from cxx2c import Lowerer, Unsupported, Index
 
 CONTRACTS = os.path.join(VERIF, 'contracts')
 
-CHECK_FLAGS = ['--bounds-check', '--pointer-check', '--signed-overflow-check',
-               '--conversion-check', '--div-by-zero-check', '--undefined-shift-check',
-               '--pointer-overflow-check']
+# explicit list: cbmc 6's implicit standard set (with malloc-may-fail) blew up to 49 GB on
+# kernels with several symbolic-length arrays, the same checks named explicitly take 12 s
+CHECK_FLAGS = ['--no-standard-checks', '--bounds-check', '--pointer-check', '--pointer-primitive-check',
+               '--signed-overflow-check', '--conversion-check', '--div-by-zero-check',
+               '--undefined-shift-check', '--pointer-overflow-check', '--unwinding-assertions']
 
 
 def load_unit(name):
@@ -64,6 +66,10 @@ def lower_unit(u, outdir):
             f = lower_ext.request_region(L, n, t)
         else:
             f = L.request_fn(n, t['cname'])
+            if t.get('ctor_as_method'):
+                f.ctor_as_method = True
+            if t.get('truncate_after'):
+                f.truncate_after = t['truncate_after']
         f.is_target = True
     L.run()
     for f in L.fn_order:
